@@ -116,6 +116,35 @@ type faultWriter struct {
 	acc    []byte
 	budget int
 	short  bool
+	silent bool // a short write that reports no error
+}
+
+// rfDest is a destination that is itself an io.ReaderFrom (as *os.File, *bufio.Writer, *bytes.Buffer are):
+// CountingWriter.ReadFrom hands the source over to it
+type rfDest struct{ *faultWriter }
+
+func (d rfDest) ReadFrom(r io.Reader) (int64, error) {
+	buf := make([]byte, 32*1024)
+	var n int64
+	for {
+		nr, er := r.Read(buf)
+		if nr > 0 {
+			nw, ew := d.faultWriter.Write(buf[:nr])
+			n += int64(nw)
+			if ew != nil {
+				return n, ew
+			}
+			if nw < nr {
+				return n, io.ErrShortWrite
+			}
+		}
+		if er == io.EOF {
+			return n, nil
+		}
+		if er != nil {
+			return n, er
+		}
+	}
 }
 
 var errFault = errors.New("injected write fault")
@@ -132,6 +161,9 @@ func (f *faultWriter) Write(p []byte) (int, error) {
 		n := f.budget
 		f.acc = append(f.acc, p[:n]...)
 		f.budget = 0
+		if f.silent {
+			return n, nil
+		}
 		return n, errFault
 	}
 	return 0, errFault
@@ -162,7 +194,9 @@ func init() {
 				res = L(Sym("panic"))
 			}
 		}()
-		b, err := bundle.Read(bytes.NewReader(a[0].B))
+		src, spoil := ownedSrc(a[0].B)
+		b, err := bundle.Read(src)
+		spoil()
 		if err != nil {
 			return ErrV()
 		}
@@ -296,8 +330,12 @@ func init() {
 	// (the copy loop of countingwriter.go), from a source that is no WriterTo and delivers one chunk per
 	// Read; srcerr != 0: the source ends with an error instead of io.EOF.  (accepted n Written ok)
 	regOp("cw_readfrom", func(a []Sx) Sx {
-		fw := &faultWriter{budget: a[1].Int(), short: a[2].Int() != 0}
-		cw := bundle.NewCountingWriter(fw)
+		fw := &faultWriter{budget: a[1].Int(), short: a[2].Int() == 1 || a[2].Int() == 2, silent: a[2].Int() == 2}
+		var dst io.Writer = fw
+		if a[2].Int() == 3 {
+			dst = rfDest{fw}
+		}
+		cw := bundle.NewCountingWriter(dst)
 		chunks := [][]byte{}
 		for _, c := range a[0].L {
 			chunks = append(chunks, c.B)
